@@ -320,6 +320,22 @@ class Function(object):
         # Add constraint to the list of self's constraints
         self.list_of_psd.append(matrix)
 
+    def _get_sample_id(self, sample, default_index):
+        """
+        Return the name of the point of a sample (triplet), or `Point_k` if this point has no name,
+        k being the position of the sample in `self.list_of_points` whichever list it is browsed from.
+
+        """
+        sample_id = sample[0].get_name()
+        if sample_id is None:
+            index = default_index
+            for position, other_sample in enumerate(self.list_of_points):
+                if other_sample is sample:
+                    index = position
+                    break
+            sample_id = "Point_{}".format(index)
+        return sample_id
+
     def add_constraints_from_one_list_of_points(self, list_of_points,
                                                 constraint_name, set_class_constraint_i):
         """
@@ -345,9 +361,7 @@ class Function(object):
         for i, point_i in enumerate(list_of_points):
 
             xi, gi, fi = point_i
-            xi_id = xi.get_name()
-            if xi_id is None:
-                xi_id = "Point_{}".format(i)
+            xi_id = self._get_sample_id(point_i, i)
 
             # Create interpolation constraint
             constraint = set_class_constraint_i(xi, gi, fi)
@@ -363,8 +377,7 @@ class Function(object):
 
         # Complete table of constraints
         table_of_constraints = np.array(table_of_constraints).reshape(1, -1)
-        point_names = [point[0].name or "Point_{}".format(point_index) for point_index, point in
-                       enumerate(list_of_points)]
+        point_names = [self._get_sample_id(point, point_index) for point_index, point in enumerate(list_of_points)]
         if table_of_constraints.shape != (0,):
             df = pd.DataFrame(table_of_constraints, columns=point_names)
             df.columns.name = "IC_{}".format(function_id)
@@ -404,9 +417,7 @@ class Function(object):
         for i, point_i in enumerate(list_of_points_1):
 
             xi, gi, fi = point_i
-            xi_id = xi.get_name()
-            if xi_id is None:
-                xi_id = "Point_{}".format(i)
+            xi_id = self._get_sample_id(point_i, i)
 
             # Initialize row of constraints
             row_of_constraints = list()
@@ -414,9 +425,7 @@ class Function(object):
             for j, point_j in enumerate(list_of_points_2):
 
                 xj, gj, fj = point_j
-                xj_id = xj.get_name()
-                if xj_id is None:
-                    xj_id = "Point_{}".format(j)
+                xj_id = self._get_sample_id(point_j, j)
 
                 # No constraint between a sample and itself. The two lists may differ (e.g. stationary points versus all
                 # points), so samples must be compared themselves, not their positions in their respective lists.
@@ -443,10 +452,8 @@ class Function(object):
 
         # Complete table of constraints
         table_of_constraints = np.array(table_of_constraints)
-        point_names_1 = [point[0].name or "Point_{}".format(point_index) for point_index, point in
-                         enumerate(list_of_points_1)]
-        point_names_2 = [point[0].name or "Point_{}".format(point_index) for point_index, point in
-                         enumerate(list_of_points_2)]
+        point_names_1 = [self._get_sample_id(point, point_index) for point_index, point in enumerate(list_of_points_1)]
+        point_names_2 = [self._get_sample_id(point, point_index) for point_index, point in enumerate(list_of_points_2)]
         if table_of_constraints.shape != (0,):
             df = pd.DataFrame(table_of_constraints, columns=point_names_2, index=point_names_1)
             df.columns.name = "IC_{}".format(function_id)
